@@ -75,8 +75,7 @@ pub open spec fn hdr32(code: u8, e: IsArrayElement, body_len: int, count: int) -
 //@@ generics
 //@@ param writer : &mut VecWriter
 //@@ param buf : &[u8]
-//@@ subst `(len as u32).to_be_bytes()` => `u32_to_be_bytes(len as u32)` rule=R14
-//@@ subst `(num as u32).to_be_bytes()` => `u32_to_be_bytes(num as u32)` rule=R14
+//@@ subst `(__E1 as u32).to_be_bytes()` => `u32_to_be_bytes(__E1 as u32)` rule=R14
 //@@ spec
     requires
         num <= buf@.len(),        // ASSUMED of the serializer call sites: every element of a list occupies at least one byte, so count <= byte length
@@ -95,8 +94,7 @@ pub open spec fn hdr32(code: u8, e: IsArrayElement, body_len: int, count: int) -
 //@@ generics
 //@@ param writer : &mut VecWriter
 //@@ param buf : &[u8]
-//@@ subst `(len as u32).to_be_bytes()` => `u32_to_be_bytes(len as u32)` rule=R14
-//@@ subst `(num as u32).to_be_bytes()` => `u32_to_be_bytes(num as u32)` rule=R14
+//@@ subst `(__E1 as u32).to_be_bytes()` => `u32_to_be_bytes(__E1 as u32)` rule=R14
 //@@ spec
     requires
         num <= buf@.len(),        // ASSUMED of the serializer call sites (2 entries per pair, each at least one byte)
@@ -114,8 +112,7 @@ pub open spec fn hdr32(code: u8, e: IsArrayElement, body_len: int, count: int) -
 //@@ generics
 //@@ param writer : &mut VecWriter
 //@@ param buf : &[u8]
-//@@ subst `(len as u32).to_be_bytes()` => `u32_to_be_bytes(len as u32)` rule=R14
-//@@ subst `(num as u32).to_be_bytes()` => `u32_to_be_bytes(num as u32)` rule=R14
+//@@ subst `(__E1 as u32).to_be_bytes()` => `u32_to_be_bytes(__E1 as u32)` rule=R14
 //@@ spec
     requires
         num <= buf@.len(),        // ASSUMED of the serializer call sites (this implementation writes at least one byte per array element)
